@@ -721,6 +721,24 @@ package smtp
 //@   prop C15
 //@   ensures @C15 exact: (err == nil) == noCRLF(line)
 
+//@ contract parseEnhancedCode(s) (code, err)
+//@   prop C17
+//@   ensures @C17 three-numbers-separated-by-dots-and-nothing-else: (err == nil) == enhTextOK(s)
+//@   ensures @C17 each-part-is-the-number-written: err == nil ==> code[0] == atoiVal(splitAt(s, ".", -1, 0)) && code[1] == atoiVal(splitAt(s, ".", -1, 1)) && code[2] == atoiVal(splitAt(s, ".", -1, 2))
+//@   loop 1:
+//@     invariant len(resultof("strings.Split", 1, 1)) == 3 && splitLen(s, ".", -1) == 3 && (forall j :: 0 <= j && j < 3 ==> resultof("strings.Split", 1, 1)[j] == splitAt(s, ".", -1, j))
+//@     invariant @C17 parts-so-far: rangeindex < 3 && (forall j :: 0 <= j && j <= rangeindex ==> atoiOK(splitAt(s, ".", -1, j)) && code[j] == atoiVal(splitAt(s, ".", -1, j)))
+
+//@ contract toSMTPErr(protoErr) (r)
+//@   prop C17
+//@   requires protoErr != nil
+//@   fresh r
+//@   ensures r != nil
+//@   ensures @C17 the-reply-code-is-kept: r.Code == protoErr.Code
+//@   ensures @C17 a-reply-without-enhanced-code-keeps-its-whole-text: !(splitLen(protoErr.Msg, " ", 2) == 2 && enhTextOK(splitAt(protoErr.Msg, " ", 2, 0))) ==> r.Message == protoErr.Msg && r.EnhancedCode == EnhancedCodeNotSet
+//@   ensures @C17 the-enhanced-code-is-the-first-word-of-the-text: splitLen(protoErr.Msg, " ", 2) == 2 && enhTextOK(splitAt(protoErr.Msg, " ", 2, 0)) ==> r.EnhancedCode[0] == atoiVal(splitAt(splitAt(protoErr.Msg, " ", 2, 0), ".", -1, 0)) && r.EnhancedCode[1] == atoiVal(splitAt(splitAt(protoErr.Msg, " ", 2, 0), ".", -1, 1)) && r.EnhancedCode[2] == atoiVal(splitAt(splitAt(protoErr.Msg, " ", 2, 0), ".", -1, 2))
+//@   ensures @C17 the-message-is-the-rest-with-the-code-taken-off-every-further-line: splitLen(protoErr.Msg, " ", 2) == 2 && enhTextOK(splitAt(protoErr.Msg, " ", 2, 0)) ==> r.Message == replaceAllOf(splitAt(protoErr.Msg, " ", 2, 1), "\n" + splitAt(protoErr.Msg, " ", 2, 0) + " ", "\n")
+
 //@ contract (*Client).readResponse(c, expectCode) (code, msg, err)
 //@   prop C15 C16 C17 C18
 //@   ensures @C17 a-negative-reply-is-reported-as-the-smtp-error-parsed-from-it-whatever-was-negotiated: istype(resultof("(*net/textproto.Reader).ReadResponse", 1, 3), "*textproto.Error") ==> istype(err, "*SMTPError") && asref(err, "*SMTPError") == resultof("toSMTPErr", 1, 1) && called("toSMTPErr")
